@@ -74,6 +74,19 @@ pub fn schoolbook(f: &Poly, g: &Poly) -> [i64; 256] {
 // (many XOF blocks consumed, many rejections) and to cross-check the library at scale; every
 // disagreement, and the rarest agreeing cases, are re-judged by TLC from Sampling.tla.
 use sha3::digest::{ExtendableOutput, Update, XofReader};
+/// constant-time test mode variants (CTEST = true): the rejection is neutralised by masking the candidate
+pub fn rej_ntt_poly_ct(seed: &[u8]) -> Poly {
+    let mut h = sha3::Shake128::default(); h.update(seed); let mut x = h.finalize_xof();
+    core::array::from_fn(|_| { let mut b = [0u8; 3]; x.read(&mut b); (((b[2] & 0x3f) as i32) << 16) | ((b[1] as i32) << 8) | b[0] as i32 })
+}
+pub fn rej_bounded_poly_ct(eta: i32, seed: &[u8]) -> Poly {
+    let mut h = sha3::Shake256::default(); h.update(seed); let mut x = h.finalize_xof();
+    let half = |b: u8| -> i32 { let b = (b & 7) as i32; if eta == 2 { 2 - (b % 5) } else { 4 - b } };
+    let mut a = [0i32; 256];
+    let mut j = 0;
+    while j < 256 { let mut z = [0u8; 1]; x.read(&mut z); a[j] = half(z[0] & 15); j += 1; if j < 256 { a[j] = half(z[0] >> 4); j += 1; } }
+    a
+}
 pub fn rej_ntt_poly(seed: &[u8]) -> (Poly, usize) {
     let mut h = sha3::Shake128::default(); h.update(seed); let mut x = h.finalize_xof();
     let (mut a, mut j, mut used) = ([0i32; 256], 0usize, 0usize);
